@@ -17,6 +17,8 @@ Decides writer/reader agreement:
  * C24.name-positions: every CST visitor of the deserializer that treats Names as references
    exempts keywords of call arguments and attribute names, as its siblings do.
 Round trip of ordinary statements (call resolution against the test cluster) is not decided.
+Further clauses (added later): C24.escape (raw_value); C24.seed-file interprets _read_module_source over every
+order of a directory listing (byte code in __pycache__, test files of modules whose name contains this one).
 """
 
 from __future__ import annotations
